@@ -39,13 +39,17 @@ RULE = ('case = one random well-nested program of `with` blocks over the 23 scop
         'context managers of scopes.MANAGERS (all documented argument values, '
         'nesting depth <= 6, different managers mixed), with `raise` statements '
         '(two Exception classes and one BaseException) at arbitrary points, caught '
-        'by `try` blocks / pg.catch_errors at arbitrary levels or escaping; '
+        'by `try` blocks / pg.catch_errors at arbitrary levels or escaping, and '
+        'documented public uses (scopes.USES: every public method of TimeIt, '
+        'reads of yielded mappings / error contexts) of the object any '
+        'enclosing block yielded, at arbitrary points of the block; '
         'first `thread_cases` indices run 2-4 such programs concurrently '
         '(free-running with sleep(0), lock-step barriers, or token scheduler with '
         'LINE events in the scope implementation files). Non-trivial = at least 3 '
         'blocks entered, nesting depth >= 2 and at least 2 different managers; '
         'distinct by the nested sequence of (manager, exit kind).')
 REQUIRED_COUNTERS = ['model_checks', 'restore_checks', 'restore_checks_exc_exit',
+                     'yielded_uses',
                      'fresh_thread_checks', 'thread_model_checks',
                      'thread_checks_while_other_in_scope']
 ASSUMPTIONS = [
@@ -63,6 +67,10 @@ ASSUMPTIONS = [
     'the restore law is checked for it',
     'every program runs on a fresh thread, so a case starts from pristine '
     'thread-local state',
+    'public uses of a yielded object (TimeIt.end/start/add/status/properties, '
+    'reads of yielded mappings) are not documented to change any scoped '
+    'setting: the model state is unchanged by them; only an exception from a '
+    'use and the unchanged restore / effective-inside laws are judged',
 ]
 LEVEL = 'exploration'
 
@@ -77,6 +85,7 @@ SCHED_TARGETS = [
     'pyglove/core/symbolic/contextual_object.py',
 ]
 MAX_DEPTH = 6
+P_USE = 0.2          # a use of an enclosing block's yielded object per statement
 
 
 class _Abort(BaseException):
@@ -151,12 +160,20 @@ def gen_program(rng, spec, disabled=()):
     return {'k': 'with', 'm': name, 'a': args, 'body': body,
             'heavy': rng.random() < 0.1}
 
+  def gen_use(stack):
+    # the object yielded by any enclosing block, used as documented
+    level = rng.choice([k for k, x in enumerate(stack) if x in S.USES])
+    return {'k': 'use', 'level': level, 'm': stack[level],
+            'u': rng.choice(S.USES[stack[level]]).name}
+
   def block(depth, state, stack):
     out = []
     n = rng.randint(1, 3)
     for j in range(n):
       if budget[0] <= 0:
         break
+      if any(x in S.USES for x in stack) and rng.random() < P_USE:
+        out.append(gen_use(stack))      # (does not count against the budget)
       budget[0] -= 1
       r = rng.random()
       if depth < MAX_DEPTH and (r < 0.58 or (j == 0 and depth < target)):
@@ -195,6 +212,8 @@ def show(nodes, indent=0):
       out.append(f"{pad}except {n['catch']}: pass")
     elif n['k'] == 'raise':
       out.append(f"{pad}raise {n['exc']}({n['msg']!r})")
+    elif n['k'] == 'use':
+      out.append(f"{pad}use {n['u']} of y bound by {n['m']} (block level {n['level']})")
     else:
       out.append(pad + n['k'])
   return out
@@ -224,6 +243,7 @@ class Exec:
     self.violations = []            # (clause, mechanism, detail)
     self.muted = set()
     self.path = []                  # labels of the enclosing with-blocks
+    self.ys = []                    # (manager, label, yielded object) of the same
     self.shape = []                 # fingerprint of what happened
     self.max_depth = 0
     self.managers_entered = set()
@@ -340,10 +360,28 @@ class Exec:
         raise S.EXC[n['exc']](n['msg'])
       elif k == 'obs':
         self.check_model(self.snapshot(False), 'effective-inside')
+      elif k == 'use':
+        self.run_use(n)
       elif k == 'spawn':
         self.spawn_check()
       elif k == 'propagate':
         self.propagate_check()
+
+  def run_use(self, n):
+    """A documented public use of the object an enclosing block yielded."""
+    mname, label, y = self.ys[n['level']]
+    assert mname == n['m'], (mname, n)
+    use = next(u for u in S.USES[mname] if u.name == n['u'])
+    self.counters['yielded_uses'] += 1
+    self.counters[f'use:{mname}.{use.name}'] += 1
+    self.shape.append(('use', mname, use.name))
+    try:
+      use.apply(y, self.env)
+    except Exception as e:  # pylint: disable=broad-except
+      if _passthrough(e):
+        raise
+      self.report('unexpected-exception', f'{label}.use:{use.name}',
+                  f'{use.name} of the object yielded by {mname} raised {e!r}')
 
   def run_with(self, n):
     env = self.env
@@ -370,6 +408,7 @@ class Exec:
         entered = True
         self.state = m.push(saved, args, env)
         self.path.append(label)
+        self.ys.append((n['m'], label, y))
         if n['m'] == 'timeit':
           env.timeits.append(y)
         if self.shared is not None:
@@ -402,8 +441,9 @@ class Exec:
     self.state = saved
     if entered:
       self.path.pop()
+      self.ys.pop()
       if n['m'] == 'timeit':
-        env.timeits.pop()
+        env.left_timeits.append(env.timeits.pop())
       if self.shared is not None:
         self.shared.depth[env.tid] = depth - 1
       if n['m'] == 'dynamic_evaluate' and args['per_thread']:
